@@ -3,6 +3,9 @@ EXTENDS Blob, Json
 Emit == PrintT(ToJson(IF c.kind = "layout"
           THEN [kind |-> "layout", len |-> c.len, s |-> IF c.s THEN 1 ELSE 0, n |-> NShares(c.len, c.s),
                 shares |-> Layout(c.len, c.s)]
+          ELSE IF c.kind = "inside"
+          THEN [kind |-> "inside", pre |-> c.pre, b |-> c.b, r |-> c.r, p |-> c.p, post |-> c.post,
+                blobs |-> InsideBlobs(c), nshares |-> InsideShares(c)]
           ELSE [kind |-> "stream", st |-> c.st, blobs |-> BlobsOf(c.st), nshares |-> StreamShares(c.st),
                 lens |-> [k \in 1..Len(c.st) |-> IF c.st[k] \in BlobKinds THEN KindLen(c.st[k]) ELSE 0]]))
 =============================================================================
